@@ -448,4 +448,20 @@ theorem outputFilepath_fallback_inj (cfg : Cfg) (d : Str) (hd : cfg.dirs = [d])
   have := congrArg (join ['.']) hc
   rwa [join_splitOn, join_splitOn] at this
 
+/-- the path hypothesis of the history theorems holds for every fallback-only configuration and every duplicate-free list of
+    clean module paths -/
+theorem noOverlap_fallback_only (cfg : Cfg) (d : Str) (hd : cfg.dirs = [d])
+    (hcwd : Str.startsWith cfg.cwd ['/'] = true) (hext : '/' ∉ extension cfg.lang)
+    (mods : List Str) (hnd : mods.Nodup) (hclean : ∀ m ∈ mods, CleanMod m) : NoOverlap cfg mods := by
+  apply (noOverlapFrom_iff cfg mods).2
+  refine ⟨fun m _ => outputFilepath_fallback_ok cfg d hd m, ?_⟩
+  induction mods with
+  | nil => exact List.Pairwise.nil
+  | cons m ms ih =>
+    rw [List.nodup_cons] at hnd
+    rw [List.pairwise_cons]
+    refine ⟨fun m' hm' heq => ?_, ih hnd.2 (fun x hx => hclean x (by simp [hx]))⟩
+    have := outputFilepath_fallback_inj cfg d hd hcwd hext m m' (hclean m (by simp)) (hclean m' (by simp [hm'])) heq
+    exact hnd.1 (this ▸ hm')
+
 end Tranp.Runner
